@@ -186,8 +186,9 @@ def _holders(st):
 # ---------------------------------------------------------------------------------------------------------------------------
 
 class Walk:
-    def __init__(self, f, recorded_locals):
+    def __init__(self, f, recorded_locals, global_ptrs=()):
         self.f = f
+        self.global_ptrs = set(global_ptrs)
         self.ptr_params = {pn for pt, pn in f.params if '*' in pt}
         self.local_ptrs = {st.name for st in f.walk() if isinstance(st, C.CDecl) and st.pointer and not st.array}
         self.int_locals = {st.name for st in f.walk() if isinstance(st, C.CDecl) and not st.pointer and not st.array and C._base_type(st.ctype) == 'int'}
@@ -212,7 +213,7 @@ class Walk:
                     if _is_call(n, ('postinc', 'postdec')) and isinstance(n.args[0], ast.Name) and (n.args[0].id in ptrs or (n.args[0].id in self.int_locals and n.args[0].id not in loopvars)):
                         tracked.add(n.args[0].id)
         self.tracked = tracked
-        self.arrays = ptrs - tracked
+        self.arrays = (ptrs - tracked) | (self.global_ptrs - set(f.param_names()) - {st.name for st in f.walk() if isinstance(st, C.CDecl)})
         self.need_decl = []
         self.used_names = set(f.param_names())
         for st in f.walk():
@@ -763,14 +764,43 @@ def pointer_for_loops(f):
     return n
 
 
-def normalise(f, funcs, recorded_funcs, recorded_locals):
+def countdown_loops(f):
+    """for (c = a; c > b; c--) body  whose body never mentions c is a loop that runs a - b times: the same loop counting up from 0 (so
+    that pointers advanced in the body get their closed forms); a loop that uses its variable is left alone"""
+    n = 0
+    used = set(f.param_names())
+    for st in f.walk():
+        if isinstance(st, C.CDecl):
+            used.add(st.name)
+        for e in _stmt_exprs(st):
+            used |= {x.id for x in ast.walk(e) if isinstance(x, ast.Name)}
+    for st in list(f.walk()):
+        if not (isinstance(st, C.CFor) and isinstance(st.init, C.CAssign) and isinstance(st.init.target, ast.Name) and st.init.op == '=' and isinstance(st.step, C.CAssign) and
+                st.step.op == '-=' and C.unparse(st.step.value) == '1' and C.unparse(st.step.target) == st.init.target.id and isinstance(st.cond, ast.Compare) and len(st.cond.ops) == 1 and
+                isinstance(st.cond.ops[0], (ast.Gt, ast.GtE)) and C.unparse(st.cond.left) == st.init.target.id):
+            continue
+        lv = st.init.target.id
+        if any(isinstance(x, ast.Name) and x.id == lv for b in _all(st.body) for e in _stmt_exprs(b) for x in ast.walk(e)):
+            continue
+        trip = ast.BinOp(left=st.init.value, op=ast.Sub(), right=st.cond.comparators[0])
+        if isinstance(st.cond.ops[0], ast.GtE):
+            trip = ast.BinOp(left=trip, op=ast.Add(), right=ast.Constant(value=1))
+        st.init = C.CAssign(ast.Name(id=lv, ctx=ast.Load()), '=', ast.Constant(value=0), st.line)
+        st.cond = ast.Compare(left=ast.Name(id=lv, ctx=ast.Load()), ops=[ast.Lt()], comparators=[trip])
+        st.step = C.CAssign(ast.Name(id=lv, ctx=ast.Load()), '+=', ast.Constant(value=1), st.line)
+        n += 1
+    return n
+
+
+def normalise(f, funcs, recorded_funcs, recorded_locals, global_ptrs=()):
     """all of the above on one function; returns the number of rewrites; raises Unsupported"""
     n = inline_void_helpers(f, funcs, recorded_funcs)
     n += pointer_for_loops(f)
+    n += countdown_loops(f)
     if recorded_locals:
         C.c_inline_new_scalars(f, set(recorded_locals))
     n += carve(f)
-    w = Walk(f, recorded_locals)
+    w = Walk(f, recorded_locals, global_ptrs)
     if w.needed():
         w.run()
         n += 1
